@@ -33,12 +33,12 @@ Theorem C20_duplicates_rejected : forall layers l t is, ~ NoDup (map fst (pre_al
 Proof. exact duplicates_rejected. Qed.
 
 (* ... hence no context is built from such a forest, whatever else is supplied. *)
-Theorem C20_context_rejects_duplicates : forall layers lm lc ls lo mgrs spec over is,
-  ~ NoDup (map fst (pre_all is)) -> exists e, build_context layers lm lc ls lo mgrs spec over is = Rejected e.
+Theorem C20_context_rejects_duplicates : forall layers lu lm lc ls lo mgrs user spec over is,
+  ~ NoDup (map fst (pre_all is)) -> exists e, build_context layers lu lm lc ls lo mgrs user spec over is = Rejected e.
 Proof.
-  intros layers lm lc ls lo mgrs spec over is Hd.
-  destruct (build_context layers lm lc ls lo mgrs spec over is) as [ctx|e|] eqn:Hb; [|eauto|].
-  - exfalso. apply Hd. apply (build_context_ok layers _ _ _ _ _ _ _ _ _ Hb).
+  intros layers lu lm lc ls lo mgrs user spec over is Hd.
+  destruct (build_context layers lu lm lc ls lo mgrs user spec over is) as [ctx|e|] eqn:Hb; [|eauto|].
+  - exfalso. apply Hd. apply (build_context_ok layers _ _ _ _ _ _ _ _ _ _ _ Hb).
   - exfalso. eapply build_context_not_oof; eauto.
 Qed.
 
@@ -54,15 +54,15 @@ Qed.
 (* A context that builds and sets up: the set-up order is the managers (in the order added) followed by the pre-order
    of the forest - each exactly once (NoDup), every component after every manager and after its parent; the log
    checker used by the correspondence accepts it; a component named like a manager is rejected when set-up begins. *)
-Theorem C20_setup_once_after_managers : forall layers lm lc ls lo mgrs spec over is ctx t order,
-  build_context layers lm lc ls lo mgrs spec over is = Ok ctx -> setup_context ctx = Ok (t, order) ->
+Theorem C20_setup_once_after_managers : forall layers lu lm lc ls lo mgrs user spec over is ctx t order,
+  build_context layers lu lm lc ls lo mgrs user spec over is = Ok ctx -> setup_context ctx = Ok (t, order) ->
   order = map fst mgrs ++ map fst (pre_all is) /\ NoDup order /\
   (forall p c, In (p, c) (edges_all is) -> occurs_before p c (map fst (pre_all is))) /\
   log_ok (map fst mgrs) is order = true /\ t = freeze (c_cfg ctx).
 Proof. exact setup_once_after_managers. Qed.
 
-Theorem C20_manager_name_clash_rejected : forall layers lm lc ls lo mgrs spec over is ctx n,
-  build_context layers lm lc ls lo mgrs spec over is = Ok ctx ->
+Theorem C20_manager_name_clash_rejected : forall layers lu lm lc ls lo mgrs user spec over is ctx n,
+  build_context layers lu lm lc ls lo mgrs user spec over is = Ok ctx ->
   In n (map fst mgrs) -> In n (map fst (pre_all is)) -> setup_context ctx = Rejected EConfig.
 Proof. exact manager_name_clash_rejected. Qed.
 
@@ -72,11 +72,12 @@ Proof. exact manager_name_clash_rejected. Qed.
    - the keyword argument if only that is given or if its layer is the higher one, the model-specification value if
    only that is given or if its layer is the higher one - never as a default; and a key path no user value is given
    for reads as the default of the (one) manager / component that sets it. *)
-Theorem C20_user_wins : forall layers lm lc ls lo, NoDup layers ->
+Theorem C20_user_wins : forall layers lu lm lc ls lo, NoDup layers ->
+  below layers lu ls -> below layers lu lo ->
   below layers lc ls -> below layers lc lo -> below layers lm ls -> below layers lm lo ->
-  forall mgrs spec over is ctx p,
-  wf_data (DDict spec) -> wf_data (DDict over) -> wf_entries mgrs -> wf_entries (pre_all is) ->
-  build_context layers lm lc ls lo mgrs spec over is = Ok ctx ->
+  forall mgrs user spec over is ctx p,
+  wf_data (DDict user) -> wf_data (DDict spec) -> wf_data (DDict over) -> wf_entries mgrs -> wf_entries (pre_all is) ->
+  build_context layers lu lm lc ls lo mgrs user spec over is = Ok ctx ->
   (forall v, dleaf (DDict over) p = Some v -> dleaf (DDict spec) p = None \/ below layers ls lo ->
              get layers (c_cfg ctx) p = LVal v) /\
   (forall v, dleaf (DDict spec) p = Some v -> dleaf (DDict over) p = None \/ below layers lo ls ->
@@ -84,9 +85,14 @@ Theorem C20_user_wins : forall layers lm lc ls lo, NoDup layers ->
   (forall vo vs, dleaf (DDict over) p = Some vo -> dleaf (DDict spec) p = Some vs ->
              get layers (c_cfg ctx) p = LVal vo \/ get layers (c_cfg ctx) p = LVal vs) /\
   (forall X d l n Y v, dleaf (DDict over) p = None -> dleaf (DDict spec) p = None ->
+     dleaf (DDict user) p = None \/ below layers lu l ->
      default_updates lm lc mgrs is = X ++ (d, l, n) :: Y -> dleaf (DDict d) p = Some v ->
      (forall d' l' n', In (d', l', n') (X ++ Y) -> dleaf (DDict d') p = None) ->
-     get layers (c_cfg ctx) p = LVal v).
+     get layers (c_cfg ctx) p = LVal v) /\
+  (* the ~/vivarium.yaml layer (below both user layers): read where nobody else sets the key *)
+  (forall v, dleaf (DDict over) p = None -> dleaf (DDict spec) p = None ->
+     (forall d' l' n', In (d', l', n') (default_updates lm lc mgrs is) -> dleaf (DDict d') p = None) ->
+     dleaf (DDict user) p = Some v -> get layers (c_cfg ctx) p = LVal v).
 Proof. exact user_wins. Qed.
 
 (* ... whatever the order in which the components are supplied: a permuted list is accepted too and every key path reads
@@ -101,13 +107,14 @@ Proof.
 Qed.
 
 (* Two managers / components defaulting the same key path (at one layer) are rejected - wherever they stand. *)
-Theorem C20_default_clash_rejected : forall layers lm lc ls lo,
+Theorem C20_default_clash_rejected : forall layers lu lm lc ls lo,
+  below layers lu ls ->
   below layers lc ls -> below layers lc lo -> below layers lm ls -> below layers lm lo ->
-  forall mgrs spec over is X Y Z d1 d2 l n1 n2 p v1 v2,
-  wf_data (DDict spec) -> wf_data (DDict over) -> wf_entries mgrs -> wf_entries (pre_all is) ->
+  forall mgrs user spec over is X Y Z d1 d2 l n1 n2 p v1 v2,
+  wf_data (DDict user) -> wf_data (DDict spec) -> wf_data (DDict over) -> wf_entries mgrs -> wf_entries (pre_all is) ->
   default_updates lm lc mgrs is = X ++ (d1, l, n1) :: Y ++ (d2, l, n2) :: Z ->
   dleaf (DDict d1) p = Some v1 -> dleaf (DDict d2) p = Some v2 ->
-  exists e, build_context layers lm lc ls lo mgrs spec over is = Rejected e.
+  exists e, build_context layers lu lm lc ls lo mgrs user spec over is = Rejected e.
 Proof. exact default_clash_rejected. Qed.
 
 (* FROZEN: once set-up has begun every key path still reads the same, and every update of / item assignment to the
@@ -138,8 +145,9 @@ Proof.
 Qed.
 
 (* the layer-table check used on the generated table is sound *)
-Theorem C20_layers_okb_sound : forall layers lm lc ls lo, layers_okb layers lm lc ls lo = true ->
-  NoDup layers /\ below layers lc ls /\ below layers lc lo /\ below layers lm ls /\ below layers lm lo.
+Theorem C20_layers_okb_sound : forall layers lu lm lc ls lo, layers_okb layers lu lm lc ls lo = true ->
+  NoDup layers /\ below layers lc ls /\ below layers lc lo /\ below layers lm ls /\ below layers lm lo /\
+  below layers lu ls /\ below layers lu lo.
 Proof. exact layers_okb_sound. Qed.
 
 (* ---- non-vacuity ---- *)
@@ -149,15 +157,18 @@ Definition demo_forest : list item :=
    Group [Comp 14 [(1, DDict [(4, DVal 5)])] []; Group [Comp 15 [] [Comp 16 [] []]]]].
 Example demo_flatten : option_map (map fst) (flatten_stack (size_all demo_forest) demo_forest []) = Some [10; 11; 12; 13; 14; 15; 16].
 Proof. vm_compute. reflexivity. Qed.
-Example demo_layers_ok : layers_okb demo_layers 2 2 3 4 = true.
+Example demo_layers_ok : layers_okb demo_layers 1 2 2 3 4 = true.
 Proof. vm_compute. reflexivity. Qed.
 Example demo_context :
-  match build_context demo_layers 2 2 3 4 [(90, [(5, DDict [(6, DVal 1)])])] [(1, DDict [(2, DVal 200)])] [(3, DVal 8)] demo_forest with
+  match build_context demo_layers 1 2 2 3 4 [(90, [(5, DDict [(6, DVal 1)])])]
+                      [(1, DDict [(2, DVal 300); (4, DVal 301)]); (9, DVal 302)] (* ~/vivarium.yaml *)
+                      [(1, DDict [(2, DVal 200)])] [(3, DVal 8)] demo_forest with
   | Ok ctx => match setup_context ctx with
               | Ok (t, order) => order = [90; 10; 11; 12; 13; 14; 15; 16] /\
                                  get demo_layers t [1; 2] = LVal 200 (* specification beats the default 100 *) /\
                                  get demo_layers t [3] = LVal 8 (* keyword argument beats the default 7 *) /\
-                                 get demo_layers t [1; 4] = LVal 5 (* default *) /\ get demo_layers t [5; 6] = LVal 1 /\
+                                 get demo_layers t [1; 4] = LVal 5 (* default beats ~/vivarium.yaml's 301 *) /\ get demo_layers t [5; 6] = LVal 1 /\
+                                 get demo_layers t [9] = LVal 302 (* only ~/vivarium.yaml sets it *) /\
                                  update demo_layers t [(3, DVal 9)] (Some 4) 0 = CErr CFrozen
               | _ => False
               end
